@@ -22,6 +22,9 @@ NS = 'BitSerializer::Csv::Detail::'
 DOCUMENTED_SEPARATORS = {',', ';', '\t', ' ', '|'}
 
 
+_INITS = {}
+
+
 def lin_of(f, e):
     """symbolic linear value of a pointer/size expression: X.data() -> D, meta.Offset -> Offset, meta.Size -> Size"""
     e = strip(e)
@@ -36,6 +39,27 @@ def lin_of(f, e):
         s = f.callee(e)
         if s is not None and s['n'] == 'data':
             return Lin.sym('D')
+        return None
+    if k == 'DeclRefExpr' and e.get('dk') in ('Var', None) and not e.get('g'):
+        # a named temporary: a local with one initialiser that is never assigned again stands for its initialiser
+        inits = _INITS.get(f.id)
+        if inits is None:
+            inits, written = {}, set()
+            for x in f.walk():
+                if x['k'] == 'DeclStmt' and len(x.get('decls') or []) == 1 and x.get('c'):
+                    inits[x['decls'][0]['d']] = x['c'][0]
+                if x['k'] in ('BinaryOperator', 'CompoundAssignOperator') and x.get('op', '').endswith('=') and x.get('op') not in ('==', '!=', '<=', '>='):
+                    t = strip(x['c'][0])
+                    if t is not None and t['k'] == 'DeclRefExpr':
+                        written.add(t.get('d'))
+                if x['k'] == 'UnaryOperator' and x.get('op') in ('++', '--'):
+                    t = strip(x['c'][0])
+                    if t is not None and t['k'] == 'DeclRefExpr':
+                        written.add(t.get('d'))
+            inits = {d: v for d, v in inits.items() if d not in written}
+            _INITS[f.id] = inits
+        if e.get('d') in inits:
+            return lin_of(f, inits[e['d']])
         return None
     if k == 'BinaryOperator' and e.get('op') in ('+', '-'):
         a, b = lin_of(f, e['c'][0]), lin_of(f, e['c'][1])
